@@ -49,7 +49,13 @@ def verify(functions: list[str], budgets=(8, 30, 60), verbose=False):
             continue
         eng = Engine(prog, contracts)
         try:
-            eng.run(q, contracts[q])
+            insts = getattr(contracts[q], 'template_instances', None) or [None]
+            for inst in insts:
+                import z3 as _z3
+                contracts[q].template_instance = ({k: _z3.BoolVal(v) for k, v in inst.items()} if inst else {})
+                label = '' if not inst else '<' + ','.join(f'{k}={str(v).lower()}' for k, v in inst.items()) + '>'
+                eng.names = {}
+                eng.run(q, contracts[q], label=label)
         except Unsupported as e:
             errors.append(Obligation(id=f'{q}::extraction', function=q, cls='X', status='unknown',
                                      detail=f'construct outside the modelled subset: {e}'))
@@ -70,7 +76,7 @@ def verify(functions: list[str], budgets=(8, 30, 60), verbose=False):
     # cover obligations: every function must have a reachable normal exit (non-vacuous precondition)
     for fn, normal in covers.items():
         obs.append(Obligation(id=f'{fn}::COVER::normal-exit-reachable', function=fn, cls='COVER',
-                              status='discharged' if normal > 0 or getattr(contracts[fn], 'never_returns', False) else 'failed',
+                              status='discharged' if normal > 0 or getattr(contracts[fn.split('<')[0]], 'never_returns', False) else 'failed',
                               backend='symex', detail=f'{normal} feasible normal exit path(s)'))
     obs += errors
     info = {
